@@ -449,11 +449,11 @@ func reportTree(e *env, fs *failSet, t *T, fails map[[2]string]string, cache map
 	}
 }
 
-// treeKeyClass: json_decode without assoc only ever yields objects, so every document whose top
-// level is not an object is one class there.
+// treeKeyClass: when json_decode without assoc fails even on the neutral document `0`, the class is
+// "any document whose top level is not an object".
 func treeKeyClass(codec string, red *T) string {
-	if codec == "json_decode(default)" && red.K != 'm' && red.K != 'k' {
-		return "non-object-document"
+	if codec == "json_decode(default)" && red.K == 'i' && red.I == 0 {
+		return "non-object-document" // even the neutral scalar fails: the content does not matter
 	}
 	if codec == "unserialize" {
 		// keyed by what the text handed to unserialize needs (same classes as the decoder family)
